@@ -18,19 +18,19 @@ import (
 // job is one unit of work of a child process: a model of one of the pools
 // with all its renderings, or one lexical class.
 type job struct {
-	Pool string // "witness", "fixed", "core", "stress"
+	Pool string // "witness", "fixed", "multidir", "core", "stress"
 	I    int
 }
 
 type bounds struct {
-	core, stress, fixed, renderings, jsonSample int
+	core, stress, fixed, renderings, jsonSample, multidir int
 }
 
 func tierBounds(thorough bool) bounds {
 	if thorough {
-		return bounds{core: 5000, stress: 1000, fixed: 50, renderings: 8, jsonSample: 250}
+		return bounds{core: 5000, stress: 1000, fixed: 50, renderings: 8, jsonSample: 250, multidir: 600}
 	}
-	return bounds{core: 150, stress: 30, fixed: 4, renderings: 4, jsonSample: 24}
+	return bounds{core: 150, stress: 30, fixed: 4, renderings: 4, jsonSample: 24, multidir: 40}
 }
 
 // jobList is a pure function of the tier.
@@ -42,6 +42,9 @@ func jobList(thorough bool) []job {
 	}
 	for i := 0; i < b.fixed; i++ {
 		out = append(out, job{"fixed", i})
+	}
+	for i := 0; i < b.multidir; i++ {
+		out = append(out, job{"multidir", i})
 	}
 	for i := 0; i < b.core; i++ {
 		out = append(out, job{"core", i})
@@ -104,6 +107,8 @@ func genModel(run *ev.Run, j job) (*idl.Program, string) {
 		p := idl.Generate(rand.New(rand.NewSource(seeds[j.I])), idl.CoreConfig())
 		sanitize(p)
 		return p, fmt.Sprintf("fixed#%d (idl.Generate, CoreConfig, math/rand seed %d)", j.I, seeds[j.I])
+	case "multidir":
+		return genMultiDir(run, j.I)
 	case "stress":
 		p := idl.Generate(run.Rand(fmt.Sprintf("c10-stress-model-%d", j.I)), stressConfig())
 		if n := sanitize(p); n > 0 {
@@ -285,10 +290,14 @@ func runModelJob(run *ev.Run, j job, b bounds, base string) *jobResult {
 // roundTrip re-renders the parse tree (through the reverse mapping) with
 // style st and parses the text again: same dump expected.
 func (e *evaluator) roundTrip(p *idl.Program, first *parseResult, st idl.Style, label string) []failure {
-	rootName := filepath.Base(first.Root)
+	rootDir := filepath.Dir(first.Root)
+	rootName := relKey(rootDir, first.Root) + filepath.Ext(first.Root)
 	var files []*idl.File
-	for _, t := range first.Trees {
+	for key, t := range first.Trees {
 		f, err := reverseFile(t)
+		if f != nil {
+			f.Base = key // the place its include chain names (relative path without extension)
+		}
 		if err != nil {
 			return []failure{{Sig: "C10:roundtrip:not-renderable", What: "the parse tree holds something the declared model never said: " + err.Error(),
 				Witness: witnessOf(p, idl.DefaultStyle(), nil, label)}}
@@ -304,9 +313,11 @@ func (e *evaluator) roundTrip(p *idl.Program, first *parseResult, st idl.Style, 
 		texts = map[string]string{}
 		for _, f := range files {
 			texts[f.FileName()] = idl.RenderFile(f, st)
-			os.WriteFile(filepath.Join(dir, f.FileName()), []byte(texts[f.FileName()]), 0o644)
+			path := filepath.Join(dir, filepath.FromSlash(f.FileName()))
+			os.MkdirAll(filepath.Dir(path), 0o755)
+			os.WriteFile(path, []byte(texts[f.FileName()]), 0o644)
 		}
-		res := parseProgram(filepath.Join(dir, rootName))
+		res := parseProgram(filepath.Join(dir, filepath.FromSlash(rootName)))
 		e.parsed++
 		e.files += len(res.Files)
 		return judge(first.Files, res)
@@ -360,8 +371,8 @@ func runWitnessJob(j job, base string) *jobResult {
 			root = path
 		}
 		expected := map[string]tree{}
-		for _, m := range v.Model {
-			expected[m.Base] = idl.Canon(m)
+		for i, m := range v.Model { // Model[i] is what Files[i] declares; files are known by relative path
+			expected[relKey(".", v.Files[i][0])] = idl.Canon(m)
 		}
 		res := parseProgram(root)
 		r.Renderings++
